@@ -23,13 +23,13 @@ from nflows import transforms as T
 
 PROPERTY = "C03"
 RULE = (
-    "1-D: every well-typed sequence of <=2 (thorough <=3) leaves from a 44-leaf typed alphabet (24 transforms + their InverseTransform wrappers where the inverse is defined on a "
+    "1-D: every well-typed sequence of <=2 (thorough <=3) leaves from a 60-leaf typed alphabet (33 transforms incl. non-default LogTanh cut points and non-default minimum bin heights/widths + their InverseTransform wrappers where the inverse is defined on a "
     "full data space) that ends in R, x StandardNormal base (single-leaf programs additionally x {DiagonalNormal, ConditionalDiagonalNormal with 2 context rows, embedding net}); "
     "2-D: every sequence of <=2 leaves from a 27-leaf alphabet over R^2 (all coupling classes with both masks, autoregressive classes, the linear family, permutations, lifted "
     "elementwise transforms, two InverseTransform wrappers) x StandardNormal. Parameters: pattern pat1 (conditioners damped). Non-trivial = >=2 leaves or a non-standard base."
 )
 ASSUMPTIONS = [
-    "quadrature: midpoint rule in a re-parametrised variable (R: x = sinh u up to |x| = 1e13; (0,1): x = sigmoid u; (0,inf): x = exp u; (-1,1): x = tanh u) with n and n/2 points; "
+    "quadrature: midpoint rule in a re-parametrised variable (R: x = sinh u up to |x| = 1e6, 1e150 for programs containing LogTanh, whose inverse grows like exp(z/alpha); (0,1): x = sigmoid u; (0,inf): x = exp u; (-1,1): x = tanh u) with n and n/2 points; "
     "a flow fails iff |I - 1| > max(floor, 10 |I_n - I_n/2|); floor 1-D: 4e-4 (2e-3 when the density is discontinuous: LeakyReLU, linear splines), halved in thorough; 2-D: 3e-3 (2e-2 discontinuous), x0.4 in thorough",
     "leaves whose range is bounded by a declared clamp (Logit / CompositeCDFTransform: |y| <= 13.8/T) are only allowed as the last leaf; LogTanh only as the first leaf (its inverse exceeds float64 behind another transform)",
     "reference base densities (standard / diagonal / conditional-diagonal normal) are evaluated in numpy from the base's public mean() and parameters only for the StandardNormal and DiagonalNormal cases",
@@ -56,6 +56,11 @@ def leaves_1d():
     L["Affine"] = (lambda: T.PointwiseAffineTransform(shift=0.3, scale=-1.7), "R", "R")
     L["LeakyReLU"] = (lambda: T.LeakyReLU(0.3), "R", "R")
     L["LogTanh"] = (lambda: T.LogTanh(1), "R", "R")
+    L["LogTanh:c0.5"] = (lambda: T.LogTanh(0.5), "R", "R")
+    L["LogTanh:c2"] = (lambda: T.LogTanh(2.0), "R", "R")
+    for cls in ("PiecewiseQuadraticCDF", "PiecewiseCubicCDF", "PiecewiseRationalQuadraticCDF"):
+        L[cls + ":tails,tall"] = ((lambda cls=cls: getattr(T, cls)([1], num_bins=3, tails="linear", tail_bound=2.5, min_bin_height=5e-2)), "R", "R")
+        L[cls + ":box,wide"] = ((lambda cls=cls: getattr(T, cls)([1], num_bins=3, min_bin_width=5e-2)), "U", "U")
     for cls in ("PiecewiseLinearCDF", "PiecewiseQuadraticCDF", "PiecewiseCubicCDF", "PiecewiseRationalQuadraticCDF"):
         L[cls + ":tails"] = (cdf(cls, True), "R", "R")
         L[cls + ":box"] = (cdf(cls, False), "U", "U")
@@ -157,7 +162,7 @@ def grid(tp, n, xmax=1e13):
     raise ValueError(tp)
 
 
-DISC = ("LeakyReLU", "PiecewiseLinear", "MaskedLinearAR", "PiecewiseLinearCpl")
+DISC = ("LeakyReLU", "PiecewiseLinear", "MaskedLinearAR", "PiecewiseLinearCpl", "LogTanh")  # LogTanh: the slopes of its two branches differ at the cut point (the density jumps there)
 
 
 def is_disc(names):
@@ -194,7 +199,8 @@ def check_flow_1d(names, base, seed, n):
     label = " -> ".join(names) + " | base " + base
     for k, ctx in enumerate(ctxs):
         try:
-            I, I2 = integrate_flow_1d(flow, tp, n, ctx, xmax=1e13 if any("LogTanh" in k for k in names) else 1e6)
+            heavy = names[0].startswith("LogTanh")  # only the forward LogTanh (always the first leaf) has the exp(z/alpha) tails
+            I, I2 = integrate_flow_1d(flow, tp, 2 * n if heavy else n, ctx, xmax=1e150 if heavy else 1e6)  # (LogTanh with cut 0.5: alpha is smaller, tails even heavier, still < 1e13 for |z| <= 8)
         except Exception as e:
             out.append(("evaluate", "log_prob raises %s on the data space" % type(e).__name__, "%s: log_prob on the %s grid raised %s: %s" % (label, tp, type(e).__name__, str(e)[:100])))
             return out
@@ -233,7 +239,7 @@ def programs_1d(maxlen):
                 continue
             # LogTanh's inverse grows like exp(exp(.)): behind another transform the data-space mass sits beyond what float64 can
             # represent (x within 1e-17 of an end-point, or > 1e308), so LogTanh is only enumerated as the first leaf
-            if any(k == "LogTanh" for k in seq[1:]):
+            if any(k.startswith("LogTanh") for k in seq[1:]):
                 continue
             # skip pure double negations that only cost time (leaf followed by its own inverse wrapper)
             if any(b == "Inv(" + a + ")" or a == "Inv(" + b + ")" for a, b in zip(seq[:-1], seq[1:])):
